@@ -34,7 +34,25 @@ thread_local! {
     static ME: Cell<Option<(usize, *const Ctl)>> = Cell::new(None);
 }
 
+static SITE_FILTER: std::sync::atomic::AtomicUsize = std::sync::atomic::AtomicUsize::new(0);
+
+/// Optional process-wide filter: when set, a yield/spin point whose site the filter rejects is
+/// ignored (the thread does not park there). Default: none, every site parks. Used by drivers whose
+/// scheduled code passes through instrumented code of other properties (e.g. registry sites 6xx
+/// inside the dogstatsd `State::flush`).
+pub fn set_site_filter(f: Option<fn(u32) -> bool>) {
+    SITE_FILTER.store(f.map_or(0, |f| f as usize), std::sync::atomic::Ordering::SeqCst);
+}
+
 fn callback(site: u32, _spin: bool) {
+    let raw = SITE_FILTER.load(std::sync::atomic::Ordering::SeqCst);
+    if raw != 0 {
+        // SAFETY: only ever stored from a `fn(u32) -> bool` in `set_site_filter`.
+        let f: fn(u32) -> bool = unsafe { std::mem::transmute::<usize, fn(u32) -> bool>(raw) };
+        if !f(site) {
+            return;
+        }
+    }
     ME.with(|me| {
         if let Some((tid, ctl)) = me.get() {
             // SAFETY: the controller outlives every participating thread (joined in `run`).
